@@ -520,6 +520,7 @@ impl Prop for Encodings {
         match build(case) {
             Built::U(af, labels) => self.run_generic(&af, &labels, ecase, rec),
             Built::S(af, labels) => self.run_generic(&af, &labels, ecase, rec),
+            Built::C(af, labels) => self.run_generic(&af, &labels, ecase, rec),
         }
     }
     fn finish_coverage(&self, cov: &mut Map<String, Value>, rec: &Rec) {
